@@ -408,6 +408,10 @@ bool Instance::configure_tx_txin() {
                 fprintf(stderr, "can't parse script pub key, or script pub key ended prematurely\n");
                 return false;
             }
+            if (pushval.size() != 20) {
+                fprintf(stderr, "unknown/non-standard script pub key (expected a 20 byte hash, got %zu bytes)\n", pushval.size());
+                return false;
+            }
             // pushval = HASH160(scriptSig)
             hashsrc.do_hash160();
             if (uint160(hashsrc.data_value()) != uint160(pushval)) {
